@@ -635,10 +635,10 @@ def overlapping_reloads(run_dir):
     root = os.path.join(run_dir, "srv-overlap")
     os.makedirs(os.path.join(root, "hd"), exist_ok=True)
     # a hosts file large enough that loading takes a noticeable time
-    with open(os.path.join(root, "hd", "00-big.hosts"), "w") as f:
+    with open(os.path.join(root, "hd", "99-big.hosts"), "w") as f:
         for i in range(250000):
             f.write("10.%d.%d.%d h%d.big.test\n" % ((i >> 16) & 255, (i >> 8) & 255, i & 255, i))
-    small = os.path.join(root, "hd", "99-small.hosts")
+    small = os.path.join(root, "hd", "00-small.hosts")     # read BEFORE the big file: a reload in progress has already seen it
 
     def write_small(addr):
         with open(small + ".tmp", "w") as f:
